@@ -109,6 +109,7 @@ func (e *Enc) callWith(fr *Frame, c *ssa.CallCommon, site ssa.Instruction, st *S
 	}
 	fn := callee.Clo.Fn
 	key := fnKey(fn)
+	e.globalStateWrite(fr, key, c, rb, site)
 	if key == "fmt.Sprintf" {
 		if r, ok := e.sprintfConcat(fr, c, args); ok {
 			return r, st, rb
@@ -1443,4 +1444,38 @@ func (e *Enc) higherOrderStd(fr *Frame, key string, c *ssa.CallCommon, args []Va
 	st = e.Havoc(st, func(comp string) bool { return comp == elem || mod(comp) })
 	e.trusted["slices."+strings.TrimPrefix(key, "slices.")+": touches the heap only through its function argument (and, in place, the elements of its slice argument)"] = true
 	return e.freshVal("res_"+shortKey(key), resType), st, true
+}
+
+// globalStateWrite: under a `writeframe` contract (C17 sweep) mechanism code must not write
+// package-level state either; the stores the sweep sees are field/element stores, so the mutators of
+// sync.Map (and sync/atomic values) applied to a package-level variable get an obligation of their
+// own - a memo shared by all rules and requests is exactly what the property excludes.
+func (e *Enc) globalStateWrite(fr *Frame, key string, c *ssa.CallCommon, rb Term, site ssa.Instruction) {
+	top := fr.top
+	if top == nil || top.contract == nil || !top.contract.WriteFrame || len(c.Args) == 0 {
+		return
+	}
+	switch key {
+	case "(*sync.Map).Store", "(*sync.Map).LoadOrStore", "(*sync.Map).Swap", "(*sync.Map).CompareAndSwap",
+		"(*sync.Map).Delete", "(*sync.Map).LoadAndDelete", "(*sync.Map).CompareAndDelete", "(*sync.Map).Clear":
+	default:
+		if !strings.HasPrefix(key, "(*sync/atomic.") || !(strings.HasSuffix(key, ").Store") || strings.HasSuffix(key, ").Swap") || strings.HasSuffix(key, ").Add") || strings.HasSuffix(key, ").CompareAndSwap")) {
+			return
+		}
+	}
+	var root ssa.Value = c.Args[0]
+	for {
+		switch x := root.(type) {
+		case *ssa.FieldAddr:
+			root = x.X
+			continue
+		case *ssa.IndexAddr:
+			root = x.X
+			continue
+		}
+		break
+	}
+	if g, ok := root.(*ssa.Global); ok {
+		e.ob(fr, "wframe", e.nextName(fr, "wframe"), rb, "false", "write to package-level state "+g.Name()+" through "+shortKey(key), sitePos(site))
+	}
 }
